@@ -9,8 +9,11 @@ TCtx == /\ ~Ev.panic
         /\ Ev.types = Ev.types2 /\ Ev.types = Ev.types3          \* same directory again; same listing populated in another order
         /\ Ev.boostid = Ev.boostid2 /\ Ev.boostid = Ev.boostid3
         /\ BoostsOK(Ev.boosts)
+\* a file name that the analyzer's own detectors compare names with is a marker by the program's own statement: alone in a
+\* directory it is recognised (whatever stands between the listing and the detectors must let it through)
+TLit == Ev.op = "ctxlit" /\ ~Ev.generic
 TraceInit == l = 1
-TraceNext == l <= Len(Trace) /\ l' = l + 1 /\ TCtx
+TraceNext == l <= Len(Trace) /\ l' = l + 1 /\ ((Ev.op = "ctx" /\ TCtx) \/ TLit)
 TraceSpec == TraceInit /\ [][TraceNext]_l
 TraceAccepted ==
     LET d == TLCGet("stats").diameter IN
